@@ -496,6 +496,18 @@ EXTRA5 = {
  "C19": dict(
   technique="; set-up as an action (WitnessSetup.tla): every log configuration of up to 4 (thorough 5) entries over 3 keys (any order, any repetition) x set-up path (witness.New / the built witness binary via impl.Main, buildLogMap) x witness key kind (P-256, P-384, RSA-2048, Ed25519, X25519) x restarts on another configuration; behaviours replayed into real processes over loopback HTTP with kill / restart on the same sqlite file, per-reply std-crypto monitor",
   note=" Named clauses MuteWitnessStoresNothing, DroppedLogNotServed; what a duplicate entry does to the START of the witness is unasserted."),
+ "C11": dict(
+  technique="; fourth specification X509ParseList.tla (certificate lists as containers of revoked entries: findings of two ranks collected over entries and list extensions; armour: a reader stage per entry point, Total on 22 armours incl. inputs that only begin like a PEM block); 10052 cases quick / 47800 thorough replayed by TestList into the twelve DER and five PEM entry points; two refuted variants (giveUp -> ListCoherent, no block guard -> Total)",
+  note=" Named clauses C1, A1, A2, E1, K1; armour table cross-checked against encoding/pem, clean lists against crypto/x509."),
+ "C16": dict(
+  technique="; the migration controller as Fetcher user under signer lag (Integrate separate from AddSequenced; ghost subm and invariant NoRepeat over every signer schedule, MigrillianLag.cfg; refutation instance MigrillianRewind.cfg; sleeping-signer simulation replayed on the real Controller; lag scenarios traced, RewindRange / NoRepeat by name)",
+  note=" 'Without gaps or repeats' across continuous rounds = PosCovered + NoRepeat per run of Controller.Run; named clause RunStartsFromRoot."),
+ "C20": dict(
+  technique="; signer lag: ghost subm and invariant NoRepeat over every signer schedule (MigrillianLag.cfg, thorough MigrillianLagFull.cfg), refutation instance MigrillianRewind.cfg, sleeping-signer scenarios replayed and traced",
+  note=" Named clause RunStartsFromRoot (a new run may re-submit what is not yet integrated)."),
+ "C18": dict(
+  technique="; API-variant dimension of the log-list filter (MCLogFilter.tla: TemporallyCompatible, Compatible, RootCompatible alone and composed in both orders x root nil / CA / not CA x roots knowledge none / accepts / rejects x certificate nil / NotAfter at every tick; VariantIsWindow, VariantsAgree): 2653 lists x 75 calls exported by TLC, replayed on lists built directly in two operator layouts and parsed from JSON, roots collection nil / empty / padded, in every frame",
+  note=" Named clauses RootClause and NilCertNothing; a nil pool as roots entry is not materialized."),
 }
 for _pid, _e in EXTRA5.items():
     EXTRA4.setdefault(_pid, {})
